@@ -5,7 +5,7 @@
 (*   [k |-> "bool"|"i8"|"u8"|"i16"|"u16"|"i32"|"u32"|"i64"|"u64"|"f32"|"f64"|"str"]  *)
 (*   [k |-> "slice", e]  [k |-> "array", e]  [k |-> "map", e]  [k |-> "ptr", e]       *)
 (*   [k |-> "iface"]     [k |-> "struct", fs]                                        *)
-(* with fs a sequence of [name, ty, omit, list, skip, emb].  Abstract values:        *)
+(* with fs a sequence of [name, ty, omit, list, skip, emb, ut].  Abstract values:        *)
 (*   scalars: big-endian byte pattern; str: bytes; slice/array: sequence;            *)
 (*   map: sequence of [k, v]; struct: sequence of field values; ptr: the pointee;    *)
 (*   iface: [ty, v] (dynamic type and value).                                        *)
@@ -16,7 +16,7 @@ ScalarTag(k) == CASE k \in {"bool", "i8", "u8"} -> 1 [] k \in {"i16", "u16"} -> 
                   [] k \in {"i64", "u64"} -> 4 [] k = "f32" -> 5 [] k = "f64" -> 6 [] k = "str" -> 8
 Scalars == {"bool", "i8", "u8", "i16", "u16", "i32", "u32", "i64", "u64", "f32", "f64", "str"}
 
-RECURSIVE TagOfVal(_, _), StaticTag(_), EncodeGo(_, _), Entries(_, _, _), IsEmptyVal(_, _)
+RECURSIVE TagOfVal(_, _), StaticTag(_), EncodeGo(_, _), Entries(_, _, _), IsEmptyVal(_, _), Flat(_, _, _, _, _), Entry(_, _)
 \* tag chosen from the static type alone (used for empty slices): anything that is not a scalar,
 \* struct or map has no static tag (End)
 StaticTag(T) == CASE T.k \in Scalars -> ScalarTag(T.k)
@@ -39,21 +39,35 @@ IsEmptyVal(T, v) ==
     [] T.k \in Scalars \ {"str", "f32", "f64"} -> \A i \in 1..Len(v) : v[i] = 0
     [] T.k \in {"f32", "f64"} -> (\A i \in 2..Len(v) : v[i] = 0) /\ v[1] \in {0, 128}     \* +0 and -0
     [] OTHER -> FALSE
-\* compound entries of a struct value: fields in declaration order, embedded structs promoted in place
-Entries(fs, vs, i) ==
+\* compound entries of a struct value: fields in declaration order, embedded structs promoted in place. When several
+\* fields claim one name (possible through embedding) the rule of encoding/json, which typeinfo.go follows, decides:
+\* the field at the shallowest embedding depth wins; among several at that depth the one whose name comes from a tag
+\* wins if it is the only such; otherwise NONE of them is a member (f.ut: the name is the Go field's, not a tag's).
+Flat(fs, vs, i, d, pre) ==
   IF i > Len(fs) THEN <<>>
   ELSE LET f == fs[i]  v == vs[i] IN
        (IF f.skip THEN <<>>
-        ELSE IF f.emb THEN Entries(f.ty.fs, v, 1)
-        ELSE IF f.omit /\ IsEmptyVal(f.ty, v) THEN <<>>
-        ELSE LET n == EncodeGo(f.ty, v) IN
-             <<[k |-> f.name, n |-> IF f.list /\ n.t \in {7, 11, 12} THEN
-                   \* the list option turns a typed array into a list of its elements
-                   [t |-> 9, et |-> (CASE n.t = 7 -> 1 [] n.t = 11 -> 3 [] n.t = 12 -> 4),
-                    v |-> IF n.t = 7 THEN [j \in 1..Len(n.v) |-> [t |-> 1, v |-> <<n.v[j]>>]]
-                          ELSE [j \in 1..Len(n.v) |-> [t |-> IF n.t = 11 THEN 3 ELSE 4, v |-> n.v[j]]]]
-                 ELSE n]>>)
-       \o Entries(fs, vs, i + 1)
+        ELSE IF f.emb THEN Flat(f.ty.fs, v, 1, d + 1, Append(pre, i))
+        ELSE <<[f |-> f, v |-> v, d |-> d, pos |-> Append(pre, i)]>>)
+       \o Flat(fs, vs, i + 1, d, pre)
+Dominant(j, all) ==
+  LET same == {k \in 1..Len(all) : all[k].f.name = all[j].f.name}
+      mind == CHOOSE m \in {all[k].d : k \in same} : \A k \in same : all[k].d >= m
+      atmin == {k \in same : all[k].d = mind}
+      tagged == {k \in atmin : ~all[k].f.ut}
+  IN all[j].d = mind /\ (Cardinality(atmin) = 1 \/ (~all[j].f.ut /\ Cardinality(tagged) = 1))
+Entry(f, v) ==
+  IF f.omit /\ IsEmptyVal(f.ty, v) THEN <<>>
+  ELSE LET n == EncodeGo(f.ty, v) IN
+       <<[k |-> f.name, n |-> IF f.list /\ n.t \in {7, 11, 12} THEN
+             \* the list option turns a typed array into a list of its elements
+             [t |-> 9, et |-> (CASE n.t = 7 -> 1 [] n.t = 11 -> 3 [] n.t = 12 -> 4),
+              v |-> IF n.t = 7 THEN [j \in 1..Len(n.v) |-> [t |-> 1, v |-> <<n.v[j]>>]]
+                    ELSE [j \in 1..Len(n.v) |-> [t |-> IF n.t = 11 THEN 3 ELSE 4, v |-> n.v[j]]]]
+           ELSE n]>>
+Entries(fs, vs, i) ==
+  LET all == Flat(fs, vs, i, 0, <<>>) IN
+  FlattenSeq([j \in 1..Len(all) |-> IF Dominant(j, all) THEN Entry(all[j].f, all[j].v) ELSE <<>>])
 EncodeGo(T, v) ==
   CASE T.k \in Scalars -> [t |-> ScalarTag(T.k), v |-> v]
     [] T.k = "ptr" -> EncodeGo(T.e, v)
